@@ -3,7 +3,10 @@
 //  1. TLC explores the timestamp layer of spec/pow/Difficulty.tla (DifficultySkel): network shapes whose
 //     fork heights are 2..12 × intervals × initial-target classes × timestamp-choice sequences, checks
 //     the lattice (median rule respected, every era crossed) and emits each complete chain as a skeleton.
-//  2. The harness executes skeletons and long seeded random chains on the real consensus.ApplyHeader and,
+//     TLC also explores the magnitude layer (DifficultyMag): the states chains start from, one start per era
+//     and era boundary, with required work / cumulative work / work estimate placed so that the 4x64-bit
+//     arithmetic of the implementation carries and borrows across every limb boundary (mag.go).
+//  2. The harness executes skeletons, magnitude scenarios and long seeded random chains on the real consensus.ApplyHeader and,
 //     in lock-step, consensus.ApplyBlock with empty blocks; every step logs both resulting states as BigNat
 //     limbs, six candidate headers with the verdicts of consensus.ValidateHeader, a sibling state and the
 //     verdicts of SufficientlyHeavierThan.
@@ -179,7 +182,7 @@ func main() {
 		descs = append(descs, chainDesc{Kind: "random", Net: sh, Regime: regime, Seed: c.Seed*7919 + int64(k), Steps: int(sh.Final) + extra, Thin: thin})
 	}
 	// ... and at the magnitudes of the limb boundaries
-	nMagLong := c.Pick(2, 45)
+	nMagLong := c.Pick(2, 90)
 	for k := 0; k < nMagLong; k++ {
 		idx := int(c.Seed%1000) + k
 		sh := magShapes[idx%len(magShapes)]
@@ -217,7 +220,7 @@ func main() {
 	if len(mags) < 5000 {
 		c.Fatal("only %d magnitude scenarios emitted", len(mags))
 	}
-	mags = pickMag(mags, r, c.Pick(440, 9000))
+	mags = pickMag(mags, r, c.Pick(440, 24000))
 	c.Cov("magnitude_scenarios_executed", len(mags))
 	for i, m := range mags {
 		descs = append(descs, m.desc(i))
@@ -325,6 +328,11 @@ func runBatch(c *vlib.Ctx, descs []chainDesc, idx []int, first bool, cv *cover, 
 		}
 		if strings.HasPrefix(rj.msg, "Env.") {
 			c.Infra("a trace line breaks an environment assumption of the specification: %s (%s)", rj.msg, describe(descs[idx[where[rj.line-1].chain]]))
+			continue
+		}
+		if dd := descs[idx[where[rj.line-1].chain]]; dd.Kind == "mag" && where[rj.line-1].line == 0 && trace[rj.line-1]["panic"] == "" {
+			// the first line of a mag chain is the state the harness constructed, not something the code computed
+			c.Infra("the constructed state of a magnitude scenario is not coherent: %s (%s)", rj.msg, describe(dd))
 			continue
 		}
 		key, msg := keyOf(rj.msg, trace[rj.line-1])
@@ -600,7 +608,6 @@ func replay(c *vlib.Ctx) {
 	c.Count(int64(len(lines)), 0)
 	c.Finish()
 }
-
 
 // corrupt is the self-test of the expected side (development aid, never set by ./check or MANIFEST commands):
 // C13_CORRUPT=<what> falsifies one recorded value of one line before validation. The specification must
